@@ -114,6 +114,22 @@ Lemma sv_ph c a i d : same_view c (put_holding_delta c a i d). Proof. intro; ref
 Lemma sv_pp c a i d : same_view c (put_params_delta c a i d). Proof. intro; reflexivity. Qed.
 Lemma sv_cr c i v : same_view c (set_creatable c i v). Proof. intro; reflexivity. Qed.
 
+Lemma sv_aux c l' : aux_eq (c_top c) l' -> same_view c (set_top c l').
+Proof. intros (H & _) b. unfold lookup, set_top. cbn [c_top c_parents c_base layers_lookup]. now rewrite H. Qed.
+
+Ltac sv_side := first [exact same_view_refl | exact same_view_trans | exact sv_ph | exact sv_pp | exact sv_cr | exact sv_aux].
+
+Lemma allocate_app_view a i g sp c : same_view c (fst (allocate_app a i g sp c)).
+Proof. apply (keeps_allocate_app same_view); sv_side. Qed.
+Lemma deallocate_app_view a i g c : same_view c (fst (deallocate_app a i g c)).
+Proof. apply (keeps_deallocate_app same_view); sv_side. Qed.
+Lemma set_key_view a i g k b c : same_view c (fst (set_key a i g k b c)).
+Proof. apply (keeps_set_key same_view); sv_side. Qed.
+Lemma del_key_view a i g k c : same_view c (fst (del_key a i g k c)).
+Proof. apply (keeps_del_key same_view); sv_side. Qed.
+Lemma length_checks_view E nl sz c : same_view c (fst (length_checks E nl sz c)).
+Proof. apply (keeps_length_checks same_view); sv_side. Qed.
+
 Lemma asset_params_view i c : same_view c (fst (asset_params i c)).
 Proof. apply (keeps_asset_params same_view same_view_refl same_view_trans). Qed.
 Lemma take_out_view a i amt bp c : same_view c (fst (take_out a i amt bp c)).
@@ -124,6 +140,9 @@ Lemma asset_freeze_view s i acct fr c : same_view c (fst (asset_freeze s i acct 
 Proof. apply (keeps_asset_freeze same_view same_view_refl same_view_trans sv_ph). Qed.
 Lemma some_or_fail_ok {A} (o : option A) c c' a : some_or_fail o c = (c', Ok a) -> c' = c /\ o = Some a.
 Proof. destruct o; cbn [some_or_fail]; unfold ret, fail; intros H; inversion H; auto. Qed.
+
+Lemma res_eq_dec (r : res bool) : r = Ok true \/ r <> Ok true.
+Proof. destruct r as [[|]|e]; [left; reflexivity | right; discriminate | right; discriminate]. Qed.
 
 (* ------------------------------------------------------------------ the invariant *)
 Section Conserve.
@@ -467,12 +486,273 @@ Section Conserve.
       rewrite Hrec. apply Inv_put_counts. exact I14.
   Qed.
 
+  (* ---------------------------------------------------------------- applications *)
+  Lemma viewed {A} (m : M A) c c' r T :
+    same_view c (fst (m c)) -> m c = (c', r) -> Inv T c -> Inv T c'.
+  Proof. intros Hv Hm. rewrite Hm in Hv. cbn [fst] in Hv. now apply Inv_view. Qed.
+
+  (* a write that only changes resource counters of the record just read *)
+  Lemma Inv_put_record T c a x : Inv T c ->
+    a_algos x = a_algos (lookup c a) -> a_rbase x = a_rbase (lookup c a) -> a_status x = a_status (lookup c a) ->
+    Inv T (put c a x).
+  Proof. intros HI H1 H2 H3. apply Inv_put_same_any; auto. now apply bwp_same. Qed.
+
+  Ltac inv_put HI :=
+    match goal with
+    | |- Inv ?T ?big =>
+      match big with
+      | context [put ?c ?a ?x] =>
+        apply (Inv_view T (put c a x)); [intro; reflexivity | apply Inv_put_record; [exact HI | reflexivity ..]]
+      end
+    end.
+
+  Lemma new_box_spec app n nl sz c c' u T : Inv T c -> new_box E app n nl sz c = (c', Ok u) -> Inv T c'.
+  Proof.
+    intros HI H. unfold new_box in H.
+    mstep H as c1 u1 G1. mguard G1. mstep H as c2 u2 G2. mguard G2. mstep H as c3 u3 G3. mguard G3.
+    mstep H as c4 ex Hb. unfold m_get_box in Hb. inversion Hb. subst c4 ex. clear Hb.
+    mstep H as c5 u5 G4. mguard G4.
+    mstep H as c6 record Hl. mlook Hl.
+    mstep H as c7 u7 Hp. unfold m_put in Hp. inversion Hp. subst c7. clear Hp.
+    unfold m_put_box in H. inversion H. subst c'. inv_put HI.
+  Qed.
+
+  Lemma del_box_spec app n nl c c' r T : Inv T c -> del_box app n nl c = (c', Ok r) -> Inv T c'.
+  Proof.
+    intros HI H. unfold del_box in H.
+    mstep H as c1 ex Hb. unfold m_get_box in Hb. inversion Hb. subst c1 ex. clear Hb.
+    destruct (get_box c app n).
+    - mstep H as c2 record Hl. mlook Hl.
+      mstep H as c3 u3 Hp. unfold m_put in Hp. inversion Hp. subst c3. clear Hp.
+      mstep H as c4 u4 Hq. unfold m_put_box in Hq. inversion Hq. subst c4. clear Hq.
+      unfold ret in H. inversion H. subst c'. inv_put HI.
+    - unfold ret in H. inversion H. now subst.
+  Qed.
+
+  Definition sbody_ok (sender : N) (b : sbody) : Prop :=
+    match b with
+    | SPay rcv amt closeto => amt < 2 ^ 64 /\ pay_addrs sender rcv amt closeto
+    | _ => True
+    end.
+
+  Lemma apply_sbody_spec sender b ad ctr c c' ad' T :
+    sbody_ok sender b -> Inv T c -> apply_sbody E sender b ad ctr c = (c', Ok ad') -> Inv T c'.
+  Proof.
+    intros Hok HI H. unfold apply_sbody in H. destruct b.
+    - destruct Hok as [Hamt Hp]. eapply payment_spec; [exact Hamt|exact Hp|exact HI|exact H].
+    - mstep H as c3 u3 H3. unfold ret in H. inversion H. subst c'. eapply asset_config_spec; eauto.
+    - mstep H as c3 u3 H3. unfold ret in H. inversion H. subst c'. eapply asset_transfer_spec; eauto.
+    - mstep H as c3 u3 H3. unfold ret in H. inversion H. subst c'. eapply asset_freeze_spec; eauto.
+  Qed.
+
+  (* an inner transaction: the application account pays the fee to the sink, then the body *)
+  Definition inner_ok (app : N) (e : N * sbody) : Prop :=
+    fst e < 2 ^ 64 /\ In (app_addr app) U /\ In (e_feesink E) U /\ sbody_ok (app_addr app) (snd e).
+
+  Lemma perform_spec app fee b c c' u T :
+    inner_ok app (fee, b) -> Inv T c -> perform E app fee b c = (c', Ok u) -> Inv T c'.
+  Proof.
+    intros (Hfee & Happ & Hsink & Hb) HI H. cbn [fst snd] in Hfee, Hb. unfold perform in H.
+    mstep H as c1 ad H1.
+    destruct (take_fee_spec (mkTxn (app_addr app) fee 0 0 0 true true (app_addr app) 0 0 0 0 BOther) _ _ _ _ _ Hfee Happ Hsink HI H1) as (I1 & _).
+    mstep H as c2 u2 Hi. unfold m_inctxn in Hi. inversion Hi. subst c2. clear Hi.
+    mstep H as c3 ctr Hct. unfold m_counter in Hct. inversion Hct. subst c3 ctr. clear Hct.
+    mstep H as c4 ad4 Hbody. unfold ret in H. inversion H. subst c'.
+    eapply apply_sbody_spec; [exact Hb| |exact Hbody].
+    eapply Inv_view; [|exact I1]. intro x. reflexivity.
+  Qed.
+
+  Lemma perform_group_spec app g c c' u T :
+    Forall (inner_ok app) g -> Inv T c -> perform_group E app g c = (c', Ok u) -> Inv T c'.
+  Proof.
+    revert c. induction g as [|[fee b] r IH]; intros c Hok HI H; cbn [perform_group] in H.
+    - unfold ret in H. inversion H. now subst.
+    - inversion Hok as [|? ? H1 H2]. subst. mstep H as c1 u1 Hp.
+      eapply IH; [exact H2| |exact H]. eapply perform_spec; eauto.
+  Qed.
+
+  Definition op_ok (app : N) (op : appop) : Prop :=
+    match op with OInner g => Forall (inner_ok app) g | _ => True end.
+
+  Lemma run_op_spec app clear op c c' u T :
+    op_ok app op -> Inv T c -> run_op E app clear op c = (c', Ok u) -> Inv T c'.
+  Proof.
+    intros Hok HI H. unfold run_op in H. destruct op.
+    - mstep H as c1 u1 H1. pose proof (viewed _ _ _ _ _ (length_checks_view E nlen size c) H1 HI) as I1.
+      mstep H as c2 u2 G. mguard G.
+      mstep H as c3 ex Hb. unfold m_get_box in Hb. inversion Hb. subst c3 ex. clear Hb.
+      destruct (get_box c1 app name).
+      + apply guard_ok in H. destruct H as [_ ->]. exact I1.
+      + eapply new_box_spec; eauto.
+    - mstep H as c1 u1 H1. pose proof (viewed _ _ _ _ _ (length_checks_view E nlen 0 c) H1 HI) as I1.
+      mstep H as c2 u2 G. mguard G.
+      mstep H as c3 r3 Hd. unfold ret in H. inversion H. subst c'. eapply del_box_spec; eauto.
+    - mstep H as c1 u1 H1. pose proof (viewed _ _ _ _ _ (length_checks_view E nlen size c) H1 HI) as I1.
+      mstep H as c2 u2 G. mguard G.
+      mstep H as c3 ex Hb. unfold m_get_box in Hb. inversion Hb. subst c3 ex. clear Hb.
+      mstep H as c4 u4 G2. mguard G2.
+      mstep H as c5 r5 Hd. eapply new_box_spec; [|exact H]. eapply del_box_spec; eauto.
+    - mstep H as c1 cr Hc. unfold m_get_app_creator in Hc. inversion Hc. subst c1 cr. clear Hc.
+      mstep H as c2 creator Hs. apply some_or_fail_ok in Hs. destruct Hs as [-> _].
+      exact (viewed _ _ _ _ _ (set_key_view creator app true key isbytes c) H HI).
+    - mstep H as c1 cr Hc. unfold m_get_app_creator in Hc. inversion Hc. subst c1 cr. clear Hc.
+      mstep H as c2 creator Hs. apply some_or_fail_ok in Hs. destruct Hs as [-> _].
+      exact (viewed _ _ _ _ _ (del_key_view creator app true key c) H HI).
+    - exact (viewed _ _ _ _ _ (set_key_view acct app false key isbytes c) H HI).
+    - exact (viewed _ _ _ _ _ (del_key_view acct app false key c) H HI).
+    - mstep H as c1 u1 G1. mguard G1. mstep H as c2 u2 G2. mguard G2.
+      eapply perform_group_spec; eauto.
+    - discriminate.
+  Qed.
+
+  Lemma run_script_spec app clear script c c' u T :
+    Forall (op_ok app) script -> Inv T c -> run_script E app clear script c = (c', Ok u) -> Inv T c'.
+  Proof.
+    revert c. induction script as [|op r IH]; intros c Hok HI H; cbn [run_script] in H.
+    - unfold ret in H. inversion H. now subst.
+    - inversion Hok as [|? ? H1 H2]. subst. mstep H as c1 u1 Ho.
+      eapply IH; [exact H2| |exact H]. eapply run_op_spec; eauto.
+  Qed.
+
+  (* StatefulEval: whatever the program does and however it ends, the total is kept *)
+  Lemma stateful_eval_spec app clear script acc c c' r T :
+    Forall (op_ok app) script -> Inv T c -> stateful_eval E app clear script acc c = (c', r) -> Inv T c'.
+  Proof.
+    intros Hok HI H.
+    destruct (res_eq_dec r) as [->|Hne].
+    - unfold stateful_eval in H.
+      pose proof (run_script_okc E app clear script (child c) (okc_child c)) as Hokc.
+      destruct (run_script E app clear script (child c)) as [c1 [u|e]] eqn:Hr; cbn [fst] in Hokc; [|discriminate].
+      destruct acc; [|discriminate]. inversion H. subst c'.
+      eapply Inv_ext; [intro a; now apply lookup_commit|].
+      destruct u. eapply run_script_spec; [exact Hok| |exact Hr].
+      eapply Inv_ext; [intro a; apply lookup_child | exact HI].
+    - rewrite (stateful_eval_not_approved _ _ _ _ _ _ _ _ H Hne). exact HI.
+  Qed.
+
+  Lemma create_application_spec creator call ctr c c' idx T :
+    Inv T c -> create_application E creator call ctr c = (c', Ok idx) -> Inv T c'.
+  Proof.
+    intros HI H. unfold create_application in H.
+    mstep H as c1 record Hl. mlook Hl.
+    mstep H as c2 u2 G1. mguard G1.
+    mstep H as c3 present Hp. unfold m_get_appparams in Hp. inversion Hp. subst c3 present. clear Hp.
+    mstep H as c4 u4 G2. mguard G2.
+    mstep H as c5 u5 Hput. unfold m_put in Hput. inversion Hput. subst c5. clear Hput.
+    mstep H as c6 u6 Hq. unfold m_put_appparams in Hq. inversion Hq. subst c6. clear Hq.
+    mstep H as c7 u7 Ha. unfold ret in H. inversion H. subst c'.
+    eapply viewed; [apply allocate_app_view|exact Ha|]. inv_put HI.
+  Qed.
+
+  Lemma optin_application_spec sender app params c c' u T :
+    Inv T c -> optin_application E sender app params c = (c', Ok u) -> Inv T c'.
+  Proof.
+    intros HI H. unfold optin_application in H.
+    mstep H as c1 record Hl. mlook Hl.
+    mstep H as c2 has Hh. unfold m_get_applocal in Hh. inversion Hh. subst c2 has. clear Hh.
+    mstep H as c3 u3 G1. mguard G1. mstep H as c4 u4 G2. mguard G2.
+    mstep H as c5 u5 Hput. unfold m_put in Hput. inversion Hput. subst c5. clear Hput.
+    mstep H as c6 u6 Hq. unfold m_put_applocal in Hq. inversion Hq. subst c6. clear Hq.
+    eapply viewed; [apply allocate_app_view|exact H|]. inv_put HI.
+  Qed.
+
+  Lemma m_del_applocal_ok a i c c' u : m_del_applocal a i c = (c', Ok u) -> same_view c c'.
+  Proof. unfold m_del_applocal. destruct (in_mods c a); intros H; inversion H; intro; reflexivity. Qed.
+  Lemma m_del_appparams_ok a i c c' u : m_del_appparams a i c = (c', Ok u) -> same_view c c'.
+  Proof. unfold m_del_appparams. destruct (in_mods c a); intros H; inversion H; intro; reflexivity. Qed.
+
+  Lemma closeout_application_spec sender app c c' u T :
+    Inv T c -> closeout_application sender app c = (c', Ok u) -> Inv T c'.
+  Proof.
+    intros HI H. unfold closeout_application in H.
+    mstep H as c1 record Hl. mlook Hl.
+    mstep H as c2 u2 G1. mguard G1.
+    mstep H as c3 ls Hh. unfold m_get_applocal in Hh. inversion Hh. subst c3 ls. clear Hh.
+    mstep H as c4 schema Hs. apply some_or_fail_ok in Hs. destruct Hs as [-> _].
+    mstep H as c5 u5 Hput. unfold m_put in Hput. inversion Hput. subst c5. clear Hput.
+    mstep H as c6 u6 Hd. apply m_del_applocal_ok in Hd.
+    eapply viewed; [apply deallocate_app_view|exact H|].
+    eapply Inv_view; [exact Hd|]. inv_put HI.
+  Qed.
+
+  Lemma delete_application_spec creator app c c' u T :
+    Inv T c -> delete_application E creator app c = (c', Ok u) -> Inv T c'.
+  Proof.
+    intros HI H. unfold delete_application in H.
+    mstep H as c1 p Hp. unfold m_get_appparams in Hp. inversion Hp. subst c1 p. clear Hp.
+    mstep H as c2 record Hl. mlook Hl.
+    mstep H as c3 u3 Hput. unfold m_put in Hput. inversion Hput. subst c3. clear Hput.
+    mstep H as c4 record2 Hl2. mlook Hl2.
+    mstep H as c5 u5 Hput2. unfold m_put in Hput2. inversion Hput2. subst c5. clear Hput2.
+    mstep H as c6 u6 Hd. apply m_del_appparams_ok in Hd.
+    eapply viewed; [apply deallocate_app_view|exact H|].
+    eapply Inv_view; [exact Hd|].
+    match goal with |- Inv T (put (put ?c0 ?a0 ?x0) ?a1 ?x1) =>
+      assert (I0 : Inv T (put c0 a0 x0)) by (apply Inv_put_record; [exact HI|reflexivity..]);
+      apply Inv_put_record; [exact I0|reflexivity..] end.
+  Qed.
+
+  (* inner transactions name the called application's account; a creating call (whose id is
+     not known beforehand) issues none *)
+  Definition call_ok (call : appcall) : Prop :=
+    Forall (op_ok (ac_app call)) (ac_script call) /\
+    (ac_app call = 0 -> Forall (fun op => match op with OInner _ => False | _ => True end) (ac_script call)).
+
+  Lemma op_ok_any app app' script :
+    Forall (fun op => match op with OInner _ => False | _ => True end) script -> Forall (op_ok app) script -> Forall (op_ok app') script.
+  Proof.
+    induction script as [|op r IH]; intros H1 H2; constructor; inversion H1; inversion H2; subst; auto.
+    destruct op; cbn in *; auto. contradiction.
+  Qed.
+
+  Lemma application_call_spec sender call ctr c c' u T :
+    call_ok call -> Inv T c -> application_call E sender call ctr c = (c', Ok u) -> Inv T c'.
+  Proof.
+    intros [Hops Hcreate] HI H. unfold application_call in H.
+    mstep H as c1 app Hc.
+    assert (I1 : Inv T c1 /\ Forall (op_ok app) (ac_script call)).
+    { destruct (ac_app call =? 0) eqn:Ez.
+      - apply N.eqb_eq in Ez. split; [eapply create_application_spec; eauto|].
+        eapply op_ok_any; [exact (Hcreate Ez) | exact Hops].
+      - unfold ret in Hc. inversion Hc. subst. auto. }
+    destruct I1 as [I1 Hops1]. clear Hc.
+    mstep H as c2 cr Hcr. unfold m_get_app_creator in Hcr. inversion Hcr. subst c2 cr. clear Hcr.
+    mstep H as c3 p Hp.
+    assert (c3 = c1) as ->.
+    { destruct (get_app_creator c1 app).
+      - mstep Hp as k1 pp Hq. unfold m_get_appparams in Hq. inversion Hq. subst k1 pp.
+        mstep Hp as k2 x Hs. apply some_or_fail_ok in Hs. destruct Hs as [-> _]. unfold ret in Hp. now inversion Hp.
+      - unfold ret in Hp. now inversion Hp. }
+    clear Hp. mstep H as c4 u4 G. mguard G.
+    destruct (ac_oc call =? 3).
+    - mstep H as c5 has Hh. unfold m_get_applocal in Hh. inversion Hh. subst c5 has. clear Hh.
+      mstep H as c6 u6 G2. mguard G2.
+      mstep H as c7 u7 Hclear.
+      assert (I7 : Inv T c7).
+      { destruct p.
+        - destruct (stateful_eval E app true (ac_script call) (ac_accept call) c1) as [k r] eqn:Hse.
+          inversion Hclear. subst k. eapply stateful_eval_spec; eauto.
+        - unfold ret in Hclear. inversion Hclear. now subst. }
+      eapply closeout_application_spec; eauto.
+    - destruct p as [[params creator]|]; [|discriminate].
+      mstep H as c5 u5 Hopt.
+      assert (I5 : Inv T c5).
+      { apply when_ok in Hopt. destruct Hopt as [[_ Hopt]|[_ ->]]; [eapply optin_application_spec; eauto|exact I1]. }
+      mstep H as c6 approved Hse. pose proof (stateful_eval_spec _ _ _ _ _ _ _ _ Hops1 I5 Hse) as I6.
+      mstep H as c7 u7 G3. mguard G3.
+      destruct ((ac_oc call =? 0) || (ac_oc call =? 1)).
+      + unfold ret in H. inversion H. now subst.
+      + destruct (ac_oc call =? 2); [eapply closeout_application_spec; eauto|].
+        destruct (ac_oc call =? 5); [eapply delete_application_spec; eauto | discriminate].
+  Qed.
+
   (* ---------------------------------------------------------------- applyTransaction *)
   (* every address the transaction names is inside the universe; amounts are uint64 *)
   Definition tx_ok (tx : txn) : Prop :=
     t_fee tx < 2 ^ 64 /\ In (t_sender tx) U /\ In (e_feesink E) U /\
     match t_body tx with
     | BPay rcv amt closeto => amt < 2 ^ 64 /\ pay_addrs (t_sender tx) rcv amt closeto
+    | BApp call => call_ok call
     | _ => True
     end.
 
@@ -485,6 +765,7 @@ Section Conserve.
     destruct (take_fee_spec _ _ _ _ _ _ Hfee Hs Hk HI H1) as (I1 & S1 & _).
     destruct (rekey_spec _ _ _ _ _ Hs I1 S1 H2) as (I2 & S2 & _).
     destruct (t_body tx).
+    - mstep H as c3 u3 H3. unfold ret in H. inversion H. subst c'. eapply application_call_spec; eauto.
     - destruct Hbody as [Hamt Hp]. eapply payment_spec; [exact Hamt|exact Hp|exact I2|exact H].
     - mstep H as c3 u3 H3. unfold ret in H. inversion H. subst c'.
       eapply keyreg_spec; [exact Hs|exact I2|exact S2|exact H3].
